@@ -26,7 +26,28 @@ def has_live_for_target(src):
     return False
 
 
+def has_boolop_in_expr(src):
+    """An and/or that the front end hoists out of a binary operation, comparison or call whose
+    earlier operands Python evaluates first."""
+    for n in ast.walk(ast.parse(src)):
+        if isinstance(n, ast.BinOp):
+            ops = [n.left, n.right]
+        elif isinstance(n, ast.Compare):
+            ops = [n.left] + list(n.comparators)
+        elif isinstance(n, ast.Call):
+            ops = list(n.args)
+        else:
+            continue
+        for i, o in enumerate(ops):
+            if i > 0 and any(isinstance(x, ast.BoolOp) for x in ast.walk(o)) and \
+                    any(not isinstance(e, (ast.Constant, ast.Name)) for e in ops[:i]):
+                return True
+    return False
+
+
 def finding_class(src):
+    if has_boolop_in_expr(src):
+        return "K4-boolop-hoisted-before-earlier-operands"
     if has_nested_boolop(src):
         return "K2-nested-boolop-eager"
     if has_live_for_target(src):
@@ -65,6 +86,12 @@ def items_for(tier, seed):
         s = progs.ProgGen(rng, progs.CLEAN | {"for-live"}).func(3)
         if has_live_for_target(s) and not has_nested_boolop(s):
             items.append(("K3", s))
+            k += 1
+    k = 0
+    while k < n:
+        s = progs.ProgGen(rng, progs.CLEAN | {"boolop-in-expr"}).func(3)
+        if has_boolop_in_expr(s) and not has_nested_boolop(s):
+            items.append(("K4", s))
             k += 1
     graphs = list(gen_graphs.exhaustive(3))
     g4 = list(gen_graphs.exhaustive(4))
